@@ -9,6 +9,7 @@ predicted by an independent deep merge of defaults <- file <- kwargs.
 from __future__ import annotations
 
 import copy
+import os
 import random
 import shutil
 import tempfile
@@ -57,7 +58,7 @@ def required(tier):
            'threads:other-thread-sees-and-cannot-replace-the-active-configuration',
            'threads:configuration-loaded-in-another-thread-is-active-here',
            'overlay:list-valued-setting-in-file-and-kwargs',
-           'questionable-load:with-warnings-as-errors']
+           'questionable-load:with-warnings-as-errors', 'paths:relative-to-working-directory']
     return {'classes': cl, 'evaluations': 5000}
 
 
@@ -113,11 +114,21 @@ class Machine:
 
         self.rng, self.hdir, self.rec = rng, hdir, rec
         self.state = None          # None = unset, dict = expected effective values
+        self.home = os.getcwd()
         self.last_failed = False
         self.log: list = []
         self.defaults = tomllib.loads(
             (boot.REPO_PKG_DATA / 'default_config.toml').read_text(encoding='utf-8'))
         self.search = [str(hdir), str(boot.REPO_TEST_DATA), str(boot.REPO_PKG_DATA)]
+        # a working directory that is NOT on the search path, holding files a user may name
+        # relative to it
+        self.outside = Path(str(hdir) + '-cwd')
+        if not (self.outside / 'local').exists():
+            (self.outside / 'local').mkdir(parents=True)
+            shutil.copy(boot.REPO_PKG_DATA / 'engines' / 'sample_edb.xlsx',
+                        self.outside / 'local' / 'edb_c.xlsx')
+            shutil.copy(boot.REPO_PKG_DATA / 'performance' / 'sample_performance_model.toml',
+                        self.outside / 'local' / 'model_c.toml')
 
     # -- generators ---------------------------------------------------------------
     def gen_overlay(self, allow_paths=True) -> dict:
@@ -234,6 +245,19 @@ class Machine:
         # an instance are the constructor and model_validate with complete data
         route = 'load' if how != 'kwargs' else rng.choice(['load', 'load', 'constructor',
                                                            'model_validate'])
+        cwd_relative = route == 'load' and rng.random() < 0.2
+        if cwd_relative:
+            # files named relative to the current working directory (outside the search path);
+            # the program changes directory after loading
+            kw_o['engine_file'] = 'local/edb_c.xlsx'
+            if rng.random() < 0.5:
+                kw_o['performance_model'] = 'local/model_c.toml'
+            kwargs = dict(copy.deepcopy(kw_o))
+            kwargs['path'] = list(self.search)
+            kwargs['data_path_overrides'] = self.search[:2]
+            expected = ref_merge(ref_merge(self.defaults, file_o), kw_o)
+            os.chdir(self.outside)
+            self.rec.cls('paths:relative-to-working-directory')
         self.log.append(('valid-load', how, file_o, kw_o, route))
         was = self.state
         try:
@@ -250,6 +274,8 @@ class Machine:
             raised = None
         except Exception as e:  # noqa: BLE001
             raised = e
+        finally:
+            os.chdir(self.home)
         if was is None:
             if raised is not None:
                 self.fail('a valid load was refused'
@@ -562,3 +588,4 @@ def run_shard(spec, rec):
                     f.unlink()
     finally:
         shutil.rmtree(hdir, ignore_errors=True)
+        shutil.rmtree(str(hdir) + '-cwd', ignore_errors=True)
